@@ -264,7 +264,10 @@ def _qemu(ctx):
             '197K (200704 bytes)', '1.0G (1073741824 bytes)', '8T', '2M',
             '6 Mi', '1 b', '2K (0 bytes)', '512 (0 bytes)', '0 (0 bytes)',
             '9007199254740993', '18446744073709551615',
-            '12345678901234567890B', '1.0G (1073741825 bytes)')
+            '12345678901234567890B', '1.0G (1073741825 bytes)',
+            '.5G', '.25 MiB', '.5', '0.5G', '00.5K', '1.K', 'x.5M', '1..5G',
+            '.5G (12 bytes)', '5.e+1', '1E+3 K', '1e-1', ' 7M', '7 M ',
+            'size 3K', '3K\n', '3\tK', '1.5k', '1.5kB', '1,5G')
     grid_compare(rep, 'R10.6', 'QemuImgInfo._extract_bytes',
                  'human-readable size strings', outcomes, {details: grid},
                  oracle, hooks=[s2b_hook, rxmodel.hook], value_eq=close)
